@@ -173,6 +173,47 @@ pub fn run(tier: &str) -> i32 {
             acc
         })
         .reduce(Acc::new, Acc::merge);
+    // two slices in one bracketed selection: every pair over a small bound range (steps absent / 1 / -1), on every
+    // array length - each slice contributes its own index sequence, whatever its neighbour looks like
+    let pair_bounds: Vec<Option<i64>> = vec![None, Some(-3), Some(-2), Some(-1), Some(0), Some(1), Some(2), Some(3), Some(4)];
+    let mut pairs: Vec<(Sel, Sel)> = vec![];
+    for a in &pair_bounds {
+        for m in &pair_bounds {
+            for m2 in &pair_bounds {
+                for b in &pair_bounds {
+                    // all adjacent pairs (first ends where the second starts), and a stride of the others
+                    let adjacent = m == m2;
+                    if !adjacent && (a.unwrap_or(9) + m.unwrap_or(9) * 3 + m2.unwrap_or(9) * 5 + b.unwrap_or(9) * 7).rem_euclid(5) != 0 {
+                        continue;
+                    }
+                    for (s1, s2) in [(None, None), (Some(1), None), (None, Some(1)), (Some(-1), None), (Some(2), Some(1))] {
+                        if !adjacent && (s1, s2) != (None, None) {
+                            continue;
+                        }
+                        pairs.push((Sel::Slice(*a, *m, s1), Sel::Slice(*m2, *b, s2)));
+                    }
+                }
+            }
+        }
+    }
+    let acc_pairs = pairs
+        .par_iter()
+        .map(|(s1, s2)| {
+            let mut acc = Acc::new();
+            for dc in arr_dcs.iter().take(7) {
+                for segs in [vec![Seg::child(vec![s1.clone(), s2.clone()])], vec![Seg::desc(vec![s1.clone(), s2.clone()])]] {
+                    let ast = Query::root(segs);
+                    let q = render::query(&ast);
+                    if let Outcome::Agree(n) = check_case(&run, &mut acc, &q, &ast, dc, Mode::NodesAndPaths, "two slices in one union") {
+                        if n > 0 {
+                            acc.nontrivial += 1;
+                        }
+                    }
+                }
+            }
+            acc
+        })
+        .reduce(Acc::new, Acc::merge);
     // indices
     let mut idx: Vec<i64> = (-(maxlen as i64) - 3..=maxlen as i64 + 3).collect();
     idx.extend([MAX_INT, MAX_INT - 1, MIN_INT, MIN_INT + 1]);
@@ -271,7 +312,7 @@ pub fn run(tier: &str) -> i32 {
             acc
         })
         .reduce(Acc::new, Acc::merge);
-    let acc = acc.merge(acc2).merge(acc3).merge(acc4).merge(acc_long);
+    let acc = acc.merge(acc2).merge(acc3).merge(acc4).merge(acc_long).merge(acc_pairs);
     run.finish(
         acc,
         "one case = one (slice or index selector, array length, context) evaluated through query_with_path (and, at the root, through a programmatically built JpQuery); expected index sequence = RFC 9535 2.3.4.2.2 pseudo-code transcribed with 128-bit arithmetic; compared on node identity, order and path; non-trivial = at least one element is selected",
